@@ -7,7 +7,7 @@ props = [json.loads(l) for l in open(os.path.join(HERE, 'properties.jsonl'))]
 
 ENGINE = "hlint"
 COMMON_NOTE = ("Trusted base: go/types, golang.org/x/tools v0.29.0 (go/packages, go/ssa, callgraph cha+vta), the checker's own abstract domains "
-               "(hlint/iset.go, hlint/flow.go) and, where used, the frozen Hessian 2.0 table in hlint/spec.go. Nothing of /repo is executed. "
+               "(hlint/iset.go interval sets, hlint/flow.go intraprocedural interpreter, hlint/px*.go path-sensitive interprocedural explorer, hlint/bitprov.go bit-provenance vectors) and, where used, the frozen Hessian 2.0 table in hlint/spec.go. Nothing of /repo is executed. "
                "Obligations are enumerated from /repo's current source on every run; an unresolved anchor, a type-check error, an analyser panic "
                "or an instance count below the confirmed floor fails the check. ")
 
@@ -19,32 +19,32 @@ claimed = {
    note="Assumes a path on which no Write fails needs no error, and that the writer reports failure through its results (not by panicking)."),
  "C13": dict(
    technique="static error-flow analysis + interval refinement of the reflect.Kind dispatch + panic-site census over go/ssa",
-   text="Decides structural necessary conditions of fail-stop encoding, not the behaviour: (R1) every call that can relay a codec error consumes it, (R2) every return of the kind dispatch reachable for an unsupported kind yields a provably non-nil error, (R3) the encode path contains no unguarded panic site (single-value assertion, Interface() on a struct field, explicit panic), (R4) the list header count and the element loop bound are the same term. A tree violating any of these has a concrete value on which encoding succeeds with wrong bytes or panics.",
+   text="Decides structural necessary conditions of fail-stop encoding, not the behaviour: (R1) every call that can relay a codec error consumes it, (R2) every return of the kind dispatch reachable for an unsupported kind yields a provably non-nil error, (R3) the encode path contains no unguarded panic site (single-value assertion, Interface() on a struct field, explicit panic), (R4) the list header count and the element loop bound are the same term, (R5) every value writer writes or fails on every path, (R6) the ref table answers only the same container (address and type) with a back-reference. A tree violating any of these has a concrete value on which encoding succeeds with wrong bytes or panics.",
    design_ref="DESIGN.md §3 C13",
    note="Does not decide that bytes emitted for supported values are right (C01/C02), nor panics inside package reflect for exotic map keys."),
  "C07": dict(
-   technique="abstract interpretation of the int/long codecs over interval sets (go/ssa) against a frozen Hessian 2.0 form table; conversion lossiness in the kind dispatch",
-   text="Decides structural necessary conditions, not the behaviour: the input sets of the encoder's forms are computed symbolically for all 2^32 / 2^64 inputs and must equal the specification's shortest-form ranges; first-octet arithmetic, big-endian octet windows, decoder tag sets and payload counts must agree with the table and with each other; every integer conversion in the kind dispatch must be value-preserving on the values reaching it (or a same-width reinterpretation the field decoder inverts). Bit-exact sign extension in the decoder is NOT decided (needs a bit-vector solver).",
+   technique="abstract interpretation of the int/long codecs over interval sets (go/ssa, path-sensitive) against a frozen Hessian 2.0 form table; bit-provenance abstract domain composing each decoder branch with the encoder's octet terms; conversion lossiness on every integer of the input value",
+   text="Decides structural necessary conditions, not the behaviour: the input sets of the encoder's forms are computed symbolically for all 2^32 / 2^64 inputs and must equal the specification's shortest-form ranges; first-octet arithmetic, big-endian octet windows, decoder tag sets and payload counts must agree with the table and with each other; every integer conversion in the kind dispatch must be value-preserving on the values reaching it (a same-width signed reinterpretation only for the widest wire integer, and only if the field decoder inverts it); and (R6) per form and per tag the decoder's result, with the stream octets replaced by the encoder's octet terms, equals the encoder's input bit for bit on all inputs of the form (decided in a bit-provenance domain without a solver: sign/zero extension, octet order, tag zero points). Together R1-R3+R6 decide the int/long codec pair exactly; what reaches the codecs from reflect (R4) is decided as a necessary condition.",
    design_ref="DESIGN.md §3 C07, §2.2, §3.0",
    note="The frozen table (hlint/spec.go) is trusted; reflect.Value.Int()/Uint() are assumed to return values within the range of the receiver's Kind."),
  "C08": dict(
-   technique="abstract interpretation of encodeDouble/decodeDoubleValue over interval sets on int64(v) under the integrality guard, against the frozen form table",
-   text="Decides structural necessary conditions, not the behaviour: encodeDouble has no feasible error return (totality); under float64(int64(v))==v the compact forms are selected exactly on {0},{1},[-128,127],[-32768,32767]; octets are windows of int64(v)/Float32bits/Float64bits; decoder tag sets and payloads agree with the table and the encoder. Floating-point exactness of the float32 test and NaN handling are NOT decided.",
+   technique="abstract interpretation of encodeDouble/decodeDoubleValue over interval sets on int64(v) under the integrality guard, against the frozen form table; bit-provenance composition of decoder and encoder per form",
+   text="Decides structural necessary conditions, not the behaviour: encodeDouble has no feasible error return (totality); under float64(int64(v))==v the compact forms are selected exactly on {0},{1},[-128,127],[-32768,32767]; octets are windows of int64(v)/Float32bits/Float64bits; decoder tag sets and payloads agree with the table and the encoder; per form the decoder rebuilds int64(v) resp. the FloatNNbits pattern the encoder sent bit for bit (R5) and the float field reader rejects nothing but a failed read (R4). Floating-point exactness of the float32 test and NaN handling are NOT decided.",
    design_ref="DESIGN.md §3 C08",
    note="IEEE conversion semantics are not modelled; the integrality and float32 guards are recognised by their term shape."),
  "C17": dict(
    technique="static typestate/effect analysis of the pool over go/ssa: select shapes, channel creation and assignment, value flow of the pooled object, call-graph reachability of blocking constructs",
-   text="Decides the property under Go's channel semantics: every channel operation reachable from Get/Return is a case of a select with default, no other blocking construct is reachable (also through the factories), the channel is created once in the constructor with capacity = size and never reassigned, Get returns only the received element or the factory's fresh result, Return's parameter has exactly one use (the send). No interleaving is enumerated and nothing is run; the conclusion for all schedules follows from the semantics of buffered channels and non-blocking select.",
+   text="Decides the property under Go's channel semantics: every channel operation reachable from Get/Return is a case of a select with default, no other blocking construct is reachable (also through the factories), the channel is created once in the constructor with capacity = size and never reassigned, Get returns only the received element or the factory's fresh result, Return's parameter has exactly one use (the send), and a factory's result is deeply fresh (nothing that can carry a reference is copied into it from captured or package memory, the shared read-only maps excepted). No interleaving is enumerated and nothing is run; the conclusion for all schedules follows from the semantics of buffered channels and non-blocking select.",
    design_ref="DESIGN.md §3 C17, Appendix A.10",
    note="Not covered: a caller returning the same object twice (caller misuse). Trusts Go's channel semantics."),
  "C12": dict(
    technique="static ownership/effect analysis over go/ssa + VTA call graph: writers of every package-level variable vs. functions reachable from the API; lookup-miss guard on shared maps; census of concurrency constructs",
-   text="Decides a sufficient condition instead of exploring schedules: no function reachable from any exported entry point writes a package-level variable or memory reachable from one (writers are init-only or the documented SetLogger), shared caller maps are written only under a failed lookup of the same key, and the package contains no goroutine/sync/atomic construct outside the pool's selects. With the listed assumptions each call then depends only on its own instance and immutable shared memory.",
+   text="Decides a sufficient condition instead of exploring schedules: no function reachable from any exported entry point writes a package-level variable or memory reachable from one (writers are init-only or the documented SetLogger), caller-supplied name/type maps — fields, parameters and captured variables, on the codec path and in constructors and pool factories — are written only under a failed lookup of the same key computed from the processed value's type (a complete map is never written; a constant or table key would be written by every first instance), a value aliasing package memory stored into an instance field taints that field, and the package contains no goroutine/sync/atomic construct outside the pool's selects. With the listed assumptions each call then depends only on its own instance and immutable shared memory.",
    design_ref="DESIGN.md §3 C12, Appendix A.9",
    note="Assumes reflect/bytes/bufio/time/strings/fmt are safe on distinct values, the configured logger is goroutine-safe, callers do not mutate inputs concurrently, and shared maps are complete."),
  "C11": dict(
    technique="static effect analysis over go/ssa: mutated-field enumeration vs Reset coverage, reset-before-work dominance on the call graph, lookup-miss guard, reflect-setter receivers, output provenance",
-   text="Decides the frame conditions the behavioural property rests on (necessary conditions, not probe equality over histories): every Encoder/Decoder field mutated on the codec path is re-initialised by Reset, every one-shot entry point resets before any work, caller maps are written only on a lookup miss, the encoder calls reflect setters only on values it allocated, input byte slices reach only bytes.NewReader, and Encode returns a buffer allocated in the call.",
+   text="Decides the frame conditions the behavioural property rests on (necessary conditions, not probe equality over histories): every Encoder/Decoder field mutated on the codec path — assigned, appended, updated, or (for by-value composites such as a bytes.Buffer) handed out by address — is re-initialised by Reset or emptied before every use, every one-shot entry point resets before any work, caller maps are written only on a lookup miss, the encoder calls reflect setters only on values it allocated, input byte slices reach only bytes.NewReader, and Encode returns a buffer allocated in the call.",
    design_ref="DESIGN.md §3 C11",
    note="Does not decide byte-for-byte equality of a probe call against a fresh instance for all histories."),
  "C03": dict(
@@ -58,13 +58,13 @@ claimed = {
    design_ref="DESIGN.md §3 C06, Appendix A.6/A.8",
    note="ReadData/ReadList/ReadLenTagObject are exported internals (listed exception with reason)."),
  "C10": dict(
-   technique="interval abstract interpretation of encodeDate/decodeDateValue over go/ssa: exactness guard, octet windows, unit agreement, overflow on the declared domain",
-   text="Decides structural necessary conditions, not the behaviour: the compact date form is reached only with a sub-second part proven {0} and a seconds value proven to fit 32 bits; the 8-octet form carries UnixMilli; encoder getter and decoder constructor agree on the unit per form; no arithmetic on the wire value can overflow on [year 1, year 9999]; UnixNano is not used; zero time ↔ null; time.Time is recognised before class-definition emission and by the struct-field dispatcher. Calendar arithmetic of package time is trusted.",
+   technique="interval abstract interpretation of encodeDate/decodeDateValue over go/ssa: exactness guard, octet windows, unit agreement, overflow on the declared domain; bit-provenance composition of decoder and encoder per form",
+   text="Decides structural necessary conditions, not the behaviour: the compact date form is reached only with a sub-second part proven {0} and a seconds value proven to fit 32 bits; the 8-octet form carries UnixMilli; encoder getter and decoder constructor agree on the unit per form; per form the decoder hands time.Unix/UnixMilli exactly the count the encoder took from the same getter, bit for bit (R6: a zero extension of the signed 32-bit seconds is reported); no arithmetic on the wire value can overflow on [year 1, year 9999]; UnixNano is not used; zero time ↔ null; time.Time is recognised before class-definition emission and by the struct-field dispatcher. Calendar arithmetic of package time is trusted.",
    design_ref="DESIGN.md §3 C10",
    note="Trusts time.UnixMilli/Unix/Nanosecond contracts."),
  "C04": dict(
    technique="path and dominance rules over go/ssa: first emission after the encoder's ref registration vs the set of productions whose decoder reader registers (computed by a fixpoint over the decoder), registrar insertion paths, registration-before-recursion dominance",
-   text="Decides the numbering discipline reference identity depends on (necessary conditions, not identity in decoded graphs): after every encoder-side registration the first emission is a production the decoder also numbers; a registrar miss always inserts with ordinal len(table); every container reader registers once, outside loops, before any call that can recurse into the value dispatch; encoder registration dominates the recursive element writes; slices grown by reflect.Append are re-announced to their holder.",
+   text="Decides the numbering discipline reference identity depends on (necessary conditions, not identity in decoded graphs): after every encoder-side registration the first emission is a production the decoder also numbers; a registrar miss always inserts with ordinal len(table); every container reader registers once, outside loops, before any call that can recurse into the value dispatch; encoder registration dominates the recursive element writes; slices grown by reflect.Append are re-announced to their holder; (R6, path exploration of the registrar with reflect getters as pure terms) the ref key carries the container's reflect.Type and, for slices and maps, the container's own data pointer whatever the access path.",
    design_ref="DESIGN.md §3 C04, Appendix A.5",
    note="Registrars are discovered structurally (the function updating the Encoder's non-string-keyed map field / appending to the Decoder's []reflect.Value field)."),
  "C05": dict(
@@ -74,27 +74,27 @@ claimed = {
    note="A value-consuming call is a call to a package function from which readTag/getTag is reachable."),
  "C01": dict(
    technique="static table extraction over go/ssa: reflect.Kind→codec tables of encoder and field decoder from refined Kind() facts, first-octet tag sets of every emission vs first-match dispatch maps, interval check of compact headers, converted-sink rule",
-   text="The behaviour (round trip over all values) is NOT decided. Decides necessary conditions, each with a concrete failing value when violated: per scalar kind the encoder's and the field decoder's wire codec agree and the typed reflect setter matches the kinds reaching it; every first octet the encoder can emit resolves to the reader of its production in the value dispatcher and is accepted by the struct/list/map field dispatchers; compact list/instance headers carry the untruncated count proven in range; raw reflect sinks in container readers only store converted or interface-typed values.",
-   design_ref="DESIGN.md §3 C01",
+   text="The behaviour (round trip over all values) is NOT decided. Decides necessary conditions, each with a concrete failing value when violated: per scalar kind the encoder's and the field decoder's wire codec agree and the typed reflect setter matches the kinds reaching it; every first octet the encoder can emit resolves to the reader of its production in the value dispatcher and is accepted by the struct/list/map field dispatchers; compact list/instance headers carry the untruncated count proven in range; raw reflect sinks in container readers only store converted or interface-typed values; type slots of typed list/map headers carry a literal, or every literal is numbered the way the decoder numbers it. All obligations of C04, C05, C07, C08, C09, C10 and C16 are evaluated as shared clauses.",
+   design_ref="DESIGN.md §3 C01, §10",
    note="Equality of field contents, element order and map entries is not decided; clauses shared with C04/C07/C08/C09 are reported there."),
  "C02": dict(
    technique="abstract interpretation of every encoder form and container header over go/ssa against the frozen Hessian 2.0 table; path rules for definition-before-instance, per-iteration value counts and map framing; value-flow of names and ordinals",
-   text="Whole-stream well-formedness under an independent parser is NOT decided (that needs emitted bytes). Decides per-form and per-header conformance with the frozen table (tags, octet counts, value ranges, windows, chunk arithmetic), count = loop bound, one value per iteration, class definition before instance with index = table position, lower-cased field names in declaration order, class name from the name map, Z on every successful map path, ref ordinal provenance.",
+   text="Whole-stream well-formedness under an independent parser is NOT decided (that needs emitted bytes). Decides per-form and per-header conformance with the frozen table (tags, octet counts, value ranges, windows, chunk arithmetic), count = loop bound, one value per iteration, class definition before instance with index = table position, lower-cased field names in declaration order, class name from the name map, Z on every successful map path, ref ordinal provenance, type slots (literal, or numbered like the decoder numbers them).",
    design_ref="DESIGN.md §3 C02, §3.0",
    note="Known finding (recorded, not repaired): the compact date x4b carries seconds where the grammar says minutes. List type-name rewriting is not decided."),
  "C09": dict(
-   technique="interval abstract interpretation of the string/binary encoders and length readers over go/ssa (form tag sets, length ranges, header windows, chunk-loop induction variables), unit-of-length typing rule, chunk-buffer and loop-exit path rules",
-   text="Content equality for all contents is NOT decided. Decides: lengths count runes of the []rune conversion (resp. octets), chunk cuts index that slice, payload is read one rune/octet per counted unit; every form's tag set, length range and header windows conform; offset and remaining length step by the chunk size under the guard remaining > chunk; readers compute in-range lengths and size buffers per chunk; because the encoder emits N for the empty string no container loop may end on a nil element/key.",
+   technique="path-sensitive abstract interpretation of the string/binary encoders as productions over views of the input (header octets, payload segments with affine bounds, 0/1/2 chunk iterations) and of the length readers; unit-of-length and payload-reader rules by role; chunk-buffer, loop-exit and output-provenance path rules",
+   text="Content equality for all contents is NOT decided. Decides: lengths count runes of the []rune conversion (resp. octets), chunk cuts index that slice, payload is read one rune/octet per counted unit; every form's tag set, length range and header windows conform; offset and remaining length step by the chunk size under the guard remaining > chunk; readers compute in-range lengths and size buffers per chunk; because the encoder emits N for the empty string no container loop may end on a nil element/key; the decoded []byte is allocated in the call (R4).",
    design_ref="DESIGN.md §3 C09",
    note="Go's []rune/string conversions are trusted to be inverse on valid UTF-8."),
  "C14": dict(
    technique="two-sided index-guard rule (intervals + dominating comparison facts), interval bound of every non-constant allocation with call-site context and return-range summaries, stream-loop progress rule, recover-boundary reachability over the VTA call graph; panic-site census",
-   text="General panic freedom and resource bounds of the reflective decoder are NOT decided. Decides: every per-stream table access has an index proven ≥0 and dominated by a length comparison; every non-constant allocation on the decode path is proven ≤ 2^20 elements or sized by a container already in memory; every stream-reading loop passes, on each iteration path, a read whose error ends it; loop exits and tag-read errors follow C06.R3/R4; every documented decode entry point is covered by a deferred recover that sets its error result.",
+   text="General panic freedom and resource bounds of the reflective decoder are NOT decided. Decides: every per-stream table access has an index proven ≥0 and dominated by a length comparison; every non-constant allocation on the decode path is proven ≤ 2^20 elements or sized by a container already in memory; every stream-reading loop passes, on each iteration path, a read whose error ends it; loop exits and tag-read errors follow C06.R3/R4; every documented decode entry point is covered by a deferred recover that sets its error result and does not re-panic; (R5) nothing reachable from a decode entry point blocks (wait, sleep, blocking channel operation) and every lock taken there is released by a deferred unlock, so a recovered panic cannot leave an instance locked.",
    design_ref="DESIGN.md §3 C14",
    note="Stack depth on deeply nested input and fatal runtime errors other than allocation by declared size are not covered."),
  "C16": dict(
    technique="dominance and value-flow rules over go/ssa on the extraction functions: visited cut-off on recursive calls, nil-pointer descent (sibling rule), paired map updates by term equality",
-   text="Decides structural necessary conditions, not closure of the maps for all types: each recursive call of the type walk on a struct field's type is dominated by a failed membership test and the insertion; the value walk recurses only under the extractor's verdict and each extractor inserts the key it found absent; empty slices/maps and nil pointers are descended through reflect.New of the element type; every name-map update has a type-map update with the same key term.",
+   text="Decides structural necessary conditions, not closure of the maps for all types: each recursive call of the type walk on a struct field's type is dominated by a failed membership test and the insertion; the value walk recurses only under the extractor's verdict and each extractor inserts the key it found absent; empty slices/maps and nil pointers are descended through reflect.New of the element type; every name-map update has a type-map update with the same key term; loops of the value walk visit every element; (R5, a frame condition stricter than the property) no function the extraction reaches touches package-level state written after initialisation, so the maps are a function of the argument.",
    design_ref="DESIGN.md §3 C16",
    note="Interface-typed fields and Java-side naming expectations are not decided."),
 }
